@@ -68,7 +68,7 @@ def build_extract():
 
 
 def run_extract():
-    env = dict(os.environ, VERIF_REPO=REPO)
+    env = dict(os.environ, VERIF_REPO=REPO, VERIF_GEN_OUT=os.path.join(LEAN, "Goflow", "Generated"))
     rc, out = sh([os.path.join(BIN, "extract")], env=env)
     problems = [l for l in out.splitlines() if l.startswith("EXTRACT-PROBLEM:")]
     if rc != 0:
